@@ -105,13 +105,14 @@ type node struct {
 }
 
 type world struct {
-	cfg       worldCfg
-	dir       string
-	nodes     []*node // nodes[0] is the publisher
-	published []coin.SignedBlock
-	known     []coin.Transaction // every transaction built so far (for re-injection and crafting)
-	hist      []string
-	stats     map[string]int
+	cfg         worldCfg
+	dir         string
+	nodes       []*node // nodes[0] is the publisher
+	published   []coin.SignedBlock
+	known       []coin.Transaction // every transaction built so far (for re-injection and crafting)
+	moreClasses []string           // transaction classes drawn in addition to txnClasses (focus of the running property)
+	hist        []string
+	stats       map[string]int
 }
 
 func (w *world) logf(format string, a ...interface{}) {
@@ -466,10 +467,40 @@ func (w *world) buildTxn(t *rapid.T, m *ref.Model, want string) *txnPlan {
 		txn.Out = append(txn.Out, coin.TransactionOutput{Address: userKeys[0].Addr, Coins: 0, Hours: 0})
 		class = want
 	case "hard:hours_overflow":
-		if len(txn.Out) >= 2 {
-			txn.Out[0].Hours = 1 << 63
-			txn.Out[1].Hours = 1 << 63
+		// the sum of the output hours exceeds 64 bits: in two adjacent outputs, in the first and the last of three or more
+		// (no two neighbours overflow), or only over four outputs together
+		shape := rapid.SampledFrom([]string{"adjacent", "first_and_last", "four_quarters"}).Draw(t, "overflow_shape")
+		need := map[string]int{"adjacent": 2, "first_and_last": 3, "four_quarters": 4}[shape]
+		for len(txn.Out) < need {
+			// split the last output's coins (whole coins where possible) to get one more output
+			l := len(txn.Out) - 1
+			c := txn.Out[l].Coins
+			half := c / 2
+			if c >= 2e6 {
+				half = c / 2 / 1e6 * 1e6
+			}
+			if half == 0 {
+				break
+			}
+			txn.Out[l].Coins = c - half
+			txn.Out = append(txn.Out, coin.TransactionOutput{Address: userKeys[(l+1)%len(userKeys)].Addr, Coins: half})
+		}
+		if len(txn.Out) >= need {
+			for i := range txn.Out {
+				txn.Out[i].Hours = uint64(i) // keeps equal-coin outputs to one address distinct
+			}
+			switch shape {
+			case "adjacent":
+				txn.Out[0].Hours, txn.Out[1].Hours = 1<<63, 1<<63
+			case "first_and_last":
+				txn.Out[0].Hours, txn.Out[len(txn.Out)-1].Hours = 1<<63, 1<<63
+			case "four_quarters":
+				for i := 0; i < 4; i++ {
+					txn.Out[i].Hours = 1<<62 + uint64(i)
+				}
+			}
 			class = want
+			w.stats["hours_overflow_"+shape]++
 		}
 	case "user:null_address":
 		txn.Out[0].Address = cipher.Address{}
